@@ -222,6 +222,6 @@ func TestVerif_C12(t *testing.T) {
 		},
 		CoqImports: []string{"YF.C12_Check"}, CoqType: "bkt_case",
 		CoqChecker: func(f map[string]bool) string { return "(check_bkt " + vh.CoqBool(f["g_bkt_incr"]) + ")" },
-		CoqCase:    vc12CoqCase, MaxCoq: 1200,
+		CoqCase:    vc12CoqCase, MaxCoq: 500,
 	})
 }
